@@ -128,6 +128,7 @@ type Machine struct {
 	marks     map[string]int
 	hashers   map[*Value]*hasher
 	forkSites map[string]int
+	peers     map[string][]*sym.Term
 	inInit    bool
 	implCache map[string]bool
 	spawnHook func(fr *frame, fn Value, args []Value, site *ssa.CallCommon)
@@ -264,6 +265,7 @@ func (m *Machine) RunPath(entry *ssa.Function, item workItem) (res *PathResult) 
 	m.opaqueSeq = 0
 	m.hashLog = nil
 	m.hashers = nil
+	m.peers = nil
 	m.depth = 0
 	m.res = &PathResult{}
 	res = m.res
